@@ -16,7 +16,7 @@ func Check(id, tier string) int {
 		return 2
 	}
 	switch id {
-	case "C01", "C02", "C03", "C04", "C05", "C06", "C07", "C08", "C09", "C20":
+	case "C01", "C02", "C03", "C04", "C05", "C06", "C07", "C08", "C09", "C10", "C20":
 		return CheckCodec(cfg, tier)
 	}
 	fmt.Fprintf(os.Stderr, "verif: no driver for %s\n", id)
@@ -38,7 +38,7 @@ func ReplayFile(file string) int {
 		return 2
 	}
 	switch rp.Property {
-	case "C01", "C02", "C03", "C04", "C05", "C06", "C07", "C08", "C09", "C20":
+	case "C01", "C02", "C03", "C04", "C05", "C06", "C07", "C08", "C09", "C10", "C20":
 		return replayCodec(&rp, file)
 	}
 	fmt.Fprintf(os.Stderr, "verif: no replay driver for %s\n", rp.Property)
